@@ -114,7 +114,7 @@ func sumOf(X3, Y3, X1, Y1, X2, Y2, d verif.Int) bool {
 //   (0,0) = B;  (i, j+1) = (i, j) + (i, 0);  (i+1, 0) = [2^8](i, 0) by eight doublings whose intermediate
 //   affine points are proposed by the real code and each verified by the affine doubling law.
 //
-//verif:ob prop=C20,C06 name=basepoint_table_rows mode=int tags=purego split=i:0..31
+//verif:ob prop=C20,C06,C02 name=basepoint_table_rows mode=int tags=purego split=i:0..31
 func vh_C20_tableRow() { tableRow(verif.Case("i")) }
 
 // the same packed bytes unpacked by the 32-bit back end: sampled rows in the quick tier, all rows in the thorough one
